@@ -481,6 +481,25 @@ impl BitsVal {
         }
         Ok(())
     }
+    /// `let mut d = donor.clone(); d.clone_from(self); d`
+    pub fn clone_from_into(&self, donor: &BitsVal) -> Option<BitsVal> {
+        macro_rules! cf {
+            ($v:ident, $x:expr, $d:expr) => {{
+                let mut d = $d.clone();
+                d.clone_from($x);
+                Some(BitsVal::$v(d))
+            }};
+        }
+        match (self, donor) {
+            (BitsVal::Bv(x), BitsVal::Bv(d)) => cf!(Bv, x, d),
+            (BitsVal::Bvm(x), BitsVal::Bvm(d)) => cf!(Bvm, x, d),
+            (BitsVal::Narrow(x), BitsVal::Narrow(d)) => cf!(Narrow, x, d),
+            (BitsVal::Wide(x), BitsVal::Wide(d)) => cf!(Wide, x, d),
+            (BitsVal::Da0(x), BitsVal::Da0(d)) => cf!(Da0, x, d),
+            (BitsVal::Da1(x), BitsVal::Da1(d)) => cf!(Da1, x, d),
+            _ => None,
+        }
+    }
     pub fn ser(&self) -> Result<Vec<u8>, String> {
         let r = match self {
             BitsVal::Bv(x) => bincode::serialize(x),
